@@ -95,6 +95,8 @@ var whitelist = []FuncSpec{
 	{"pkg/provider", "IdentityProvider", "logoutHandleFunc"},
 	{"pkg/provider", "", "makeAttributeQueryResponse"},
 	{"pkg/provider", "IdentityProvider", "attributeQueryHandleFunc"},
+	{"pkg/provider", "", "getAuthRequestFromRequest"},
+	{"pkg/provider", "IdentityProvider", "ssoHandleFunc"},
 }
 
 // extraFields are struct fields the hand-written handler models read although no translated function does.
@@ -156,6 +158,8 @@ type fn struct {
 	// inout: pointer parameters the body assigns through (or hands to a callee that does); their final values are
 	// returned after the Go results and written back by the caller
 	inout []*param
+	// hasWB: a second definition <lean>_wb exists (func(error) parameters as extra results)
+	hasWB bool
 }
 
 type param struct {
@@ -320,6 +324,8 @@ func (w *world) prepare(f *fn) {
 			if s.Params().Len() == 0 && s.Results().Len() == 1 {
 				p.kind = "getter"
 				p.typ = s.Results().At(0).Type()
+			} else if s.Params().Len() == 1 && s.Results().Len() == 0 && isErrorType(s.Params().At(0).Type()) {
+				p.kind = "setter" // func(error): a callback that stores an error in a variable of the caller
 			} else {
 				p.kind = "ignored"
 			}
@@ -328,7 +334,7 @@ func (w *world) prepare(f *fn) {
 		} else {
 			p.kind = "value"
 		}
-		if p.kind != "ignored" {
+		if p.kind != "ignored" && p.kind != "setter" {
 			p.leanTy = w.leanType(p.typ)
 		}
 		f.params = append(f.params, p)
@@ -492,6 +498,11 @@ type tctx struct {
 	wbOK bool
 	// chain handlers: variables of type checker.Checker, the registered steps (Lean terms), the closures emitted as
 	// definitions over the handler frame, the closure being translated, the statements of the function's top level
+	// setter mode: the function is translated a second time as <name>_wb, whose result carries, after the Go results,
+	// the last value handed to each func(error) parameter (none: never called); the caller writes it back
+	setterMode bool
+	setters    map[types.Object]string
+	effDone  map[*ast.AssignStmt]bool
 	chk      map[types.Object]bool
 	steps    []string
 	cloDefs  []string
@@ -562,6 +573,28 @@ func (c *tctx) newLocal(obj types.Object, ty types.Type) string {
 }
 
 func (w *world) translate(f *fn) {
+	w.translateMode(f, false)
+	hasSetter := false
+	for _, p := range f.params {
+		if p.kind == "setter" {
+			hasSetter = true
+		}
+	}
+	if hasSetter && f.failed == "" {
+		plain := f.out
+		w.translateMode(f, true)
+		if f.failed == "" {
+			f.out = plain + "\n" + f.out
+			f.hasWB = true
+		} else {
+			w.notes = append(w.notes, "no _wb variant of "+f.lean+": "+f.failed)
+			f.failed = ""
+			f.out = plain
+		}
+	}
+}
+
+func (w *world) translateMode(f *fn, setterMode bool) {
 	defer func() {
 		if r := recover(); r != nil {
 			f.failed = fmt.Sprint(r)
@@ -572,13 +605,25 @@ func (w *world) translate(f *fn) {
 		}
 	}()
 	c := &tctx{w: w, f: f, info: f.pkg.TypesInfo, locals: map[types.Object]string{}, bound: map[types.Object]string{},
-		getters: map[types.Object]bool{}, ignored: map[types.Object]bool{}}
+		getters: map[types.Object]bool{}, ignored: map[types.Object]bool{}, setterMode: setterMode, setters: map[types.Object]string{}}
+	f.inout = nil
+	leanName := f.lean
+	if setterMode {
+		leanName = f.lean + "_wb"
+	}
 	var sigParams []string
 	var initFields []string
 	for _, p := range f.params {
 		switch p.kind {
 		case "ignored":
 			c.ignored[p.obj] = true
+			continue
+		case "setter":
+			if !setterMode {
+				c.ignored[p.obj] = true
+			} else {
+				c.setters[p.obj] = "set_" + sanitize(p.name)
+			}
 			continue
 		case "getter":
 			c.getters[p.obj] = true
@@ -611,6 +656,14 @@ func (w *world) translate(f *fn) {
 	for _, p := range f.inout {
 		all = append(all, p.leanTy)
 	}
+	if setterMode {
+		for _, p := range f.params {
+			if p.kind == "setter" {
+				all = append(all, "(Option Err)")
+				c.fields = append(c.fields, frameField{c.setters[p.obj], "(Option Err)", "none"})
+			}
+		}
+	}
 	if c.hasEff {
 		all = append(all, "(List Eff)")
 		c.fields = append(c.fields, frameField{"eff_", "(List Eff)", "[]"})
@@ -639,7 +692,7 @@ func (w *world) translate(f *fn) {
 		body = fmt.Sprintf("  Ctl.seq\n  (\n%s)\n    fun s =>\n    .ret %s", body, c.retTuple(nil))
 	}
 	var sb strings.Builder
-	fmt.Fprintf(&sb, "namespace %s\n", f.lean)
+	fmt.Fprintf(&sb, "namespace %s\n", leanName)
 	fmt.Fprintf(&sb, "structure Frame where\n")
 	if len(c.fields) == 0 {
 		fmt.Fprintf(&sb, "  unit_ : Unit := ()\n")
@@ -657,10 +710,14 @@ func (w *world) translate(f *fn) {
 	if len(c.steps) > 0 {
 		fmt.Fprintf(&sb, "\n/-- the validation chain: one `Go.Step` per `checkerInstance.WithXxx(…)` call, in registration order -/\ndef chain (o : Ora) : List (Go.Step Frame) := [\n  %s]\n", strings.Join(c.steps, ",\n  "))
 	}
-	fmt.Fprintf(&sb, "\ndef body (o : Ora) (s : Frame) : Ctl Frame (%s) :=\n%s\nend %s\n\n", c.retTy, body, f.lean)
+	fmt.Fprintf(&sb, "\ndef body (o : Ora) (s : Frame) : Ctl Frame (%s) :=\n%s\nend %s\n\n", c.retTy, body, leanName)
 	dflt := "default"
-	fmt.Fprintf(&sb, "/-- translated from %s -/\ndef %s (o : Ora) %s : Res (%s) :=\n  (%s.body o { %s }).toRes %s\n",
-		f.spec.key(), f.lean, strings.Join(sigParams, " "), c.retTy, f.lean, strings.Join(initFields, ", "), dflt)
+	doc := "translated from " + f.spec.key()
+	if setterMode {
+		doc += "; after the Go results: the last value handed to each func(error) parameter (none: not called)"
+	}
+	fmt.Fprintf(&sb, "/-- %s -/\ndef %s (o : Ora) %s : Res (%s) :=\n  (%s.body o { %s }).toRes %s\n",
+		doc, leanName, strings.Join(sigParams, " "), c.retTy, leanName, strings.Join(initFields, ", "), dflt)
 	f.out = sb.String()
 }
 
@@ -669,6 +726,13 @@ func (c *tctx) retTuple(es []string) string {
 	all := append([]string{}, es...)
 	for _, p := range c.f.inout {
 		all = append(all, "s."+c.locals[p.obj])
+	}
+	if c.setterMode {
+		for _, p := range c.f.params {
+			if p.kind == "setter" {
+				all = append(all, "s."+c.setters[p.obj])
+			}
+		}
 	}
 	if c.hasEff {
 		all = append(all, "s.eff_")
@@ -754,6 +818,14 @@ func (c *tctx) stmts(list []ast.Stmt, ind string) string {
 		}
 		if c.chainRegistration(st, s.X) {
 			return c.stmts(rest, ind)
+		}
+		if call, ok := s.X.(*ast.CallExpr); ok && len(call.Args) == 1 {
+			if id, ok := call.Fun.(*ast.Ident); ok {
+				if fld, ok := c.setters[c.info.Uses[id]]; ok {
+					v := c.expr(call.Args[0])
+					return guardWrap(v.g, ind, fmt.Sprintf("%slet s := { s with %s := some %s };\n%s", ind, fld, v.e, c.stmts(rest, ind)))
+				}
+			}
 		}
 		if c.hasEff {
 			if v, ok := c.effectCall(s.X); ok {
@@ -1028,8 +1100,63 @@ func (c *tctx) closure(e ast.Expr, rt types.Type) string {
 		if callee == nil || callee.inner == nil {
 			panic("unsupported closure value " + c.src(e))
 		}
+		// func(error) arguments: `func(e error) { v = e }` stores into the local v of the handler
+		var setTargets []string
+		ai := 0
+		for _, p := range callee.params {
+			if sig := callee.obj.Type().(*types.Signature); sig.Recv() != nil && p.obj == sig.Recv() {
+				continue
+			}
+			if ai >= len(x.Args) {
+				break
+			}
+			a := x.Args[ai]
+			ai++
+			if p.kind != "setter" {
+				continue
+			}
+			fl, ok := a.(*ast.FuncLit)
+			if !ok || len(fl.Body.List) != 1 {
+				panic("unsupported func(error) argument " + c.src(a))
+			}
+			as, ok := fl.Body.List[0].(*ast.AssignStmt)
+			if !ok || as.Tok.String() != "=" || len(as.Lhs) != 1 || len(as.Rhs) != 1 {
+				panic("unsupported func(error) argument " + c.src(a))
+			}
+			lid, lok := as.Lhs[0].(*ast.Ident)
+			rid, rok := as.Rhs[0].(*ast.Ident)
+			if !lok || !rok || c.info.Uses[rid] != c.info.Defs[fl.Type.Params.List[0].Names[0]] {
+				panic("unsupported func(error) argument " + c.src(a))
+			}
+			n, has := c.locals[c.info.Uses[lid]]
+			if !has {
+				panic("func(error) argument stores into a non-local")
+			}
+			setTargets = append(setTargets, n)
+		}
 		v := c.callTranslated(callee, x)
-		body = fmt.Sprintf("  .ok (%s, s)", v.e)
+		if len(setTargets) == 0 {
+			body = fmt.Sprintf("  .ok (%s, s)", v.e)
+		} else {
+			if !callee.hasWB {
+				panic("callee " + callee.lean + " has no _wb variant")
+			}
+			// the _wb variant: same arguments, results followed by the stored errors
+			wbCall := strings.Replace(v.e, "("+callee.lean+" o", "("+callee.lean+"_wb o", 1)
+			for i := range v.g {
+				v.g[i] = strings.Replace(v.g[i], "("+callee.lean+" o", "("+callee.lean+"_wb o", 1)
+			}
+			k := len(callee.resTypes) + len(setTargets)
+			body = fmt.Sprintf("  let t_ := %s;\n", wbCall)
+			for j, n := range setTargets {
+				body += fmt.Sprintf("  let s := (match t_%s with | some e_ => { s with %s := e_ } | none => s);\n", tupleProj(len(callee.resTypes)+j, k), n)
+			}
+			res := "t_" + tupleProj(0, k)
+			if len(callee.resTypes) != 1 {
+				panic("closure-returning callee with func(error) parameters and other than one result")
+			}
+			body += fmt.Sprintf("  .ok (%s, s)", res)
+		}
 		if len(v.g) > 0 {
 			body = fmt.Sprintf("  if %s then .panic else\n%s", orGuards(v.g), body)
 		}
@@ -1261,6 +1388,10 @@ func hasEffects(body *ast.BlockStmt, info *types.Info) bool {
 	return found
 }
 
+// storageEffects: storage methods whose call is part of what a handler does to the outside (recorded in the effect trace
+// with its arguments; the answer is an oracle as for every interface method)
+var storageEffects = map[string]bool{"CreateAuthRequest": true}
+
 // outParamMethods: interface methods that fill the struct behind one of their pointer arguments (argument index among
 // the non-context parameters).  The oracle returns the filled value after its Go results.
 var outParamMethods = map[string]int{"SetUserinfoWithUserID": 1, "SetUserinfoWithLoginName": 0}
@@ -1452,6 +1583,11 @@ func (c *tctx) assignWB(lhs []ast.Expr, lhsName func(ast.Expr, types.Type) strin
 // it returns the frame field of the root, the new value of that field, and the panic guards (nil pointer on the
 // path, index out of range).
 func (c *tctx) pathUpdate(lhs ast.Expr, rhs ast.Expr) (string, string, []string) {
+	return c.pathUpdateVal(lhs, c.exprAs(rhs, c.info.TypeOf(lhs)))
+}
+
+// pathUpdateVal: the same for an already translated right-hand side
+func (c *tctx) pathUpdateVal(lhs ast.Expr, v val) (string, string, []string) {
 	// collect the path from the root outwards
 	type step struct {
 		kind  string // "field" | "index" | "deref"
@@ -1507,7 +1643,6 @@ func (c *tctx) pathUpdate(lhs ast.Expr, rhs ast.Expr) (string, string, []string)
 	if !ok {
 		panic("assignment through non-local " + id.Name)
 	}
-	v := c.exprAs(rhs, c.info.TypeOf(lhs))
 	g := append([]string{}, v.g...)
 	// build the update inside out; cur is the Lean expression of the current base value
 	var build func(cur string, i int) string
@@ -1574,6 +1709,36 @@ func (c *tctx) assign(s *ast.AssignStmt, rest []ast.Stmt, ind string) string {
 			return c.newLocal(obj, obj.Type())
 		}
 		panic("assignment to non-local " + id.Name)
+	}
+	if len(s.Rhs) == 1 && c.hasEff && !c.effDone[s] {
+		// a storage call that leaves a trace (CreateAuthRequest): the call with its arguments is an effect, its answer an oracle
+		if call, ok := s.Rhs[0].(*ast.CallExpr); ok {
+			if sel, ok := call.Fun.(*ast.SelectorExpr); ok && storageEffects[sel.Sel.Name] {
+				if sl := c.info.Selections[sel]; sl != nil && sl.Kind() == types.MethodVal {
+					sig := sl.Obj().Type().(*types.Signature)
+					var es, tys, g []string
+					for i := 0; i < sig.Params().Len(); i++ {
+						if isIgnoredType(sig.Params().At(i).Type()) {
+							continue
+						}
+						v := c.expr(call.Args[i])
+						es = append(es, v.e)
+						g = append(g, v.g...)
+						tys = append(tys, c.w.leanType(sig.Params().At(i).Type()))
+					}
+					name := "call" + sel.Sel.Name
+					if _, has := c.w.effs[name]; !has {
+						c.w.effs[name] = tys
+						c.w.effOrd = append(c.w.effOrd, name)
+					}
+					if c.effDone == nil {
+						c.effDone = map[*ast.AssignStmt]bool{}
+					}
+					c.effDone[s] = true
+					return guardWrap(g, ind, fmt.Sprintf("%slet s := { s with eff_ := s.eff_ ++ [(Eff.%s %s)] };\n%s", ind, name, strings.Join(es, " "), c.assign(s, rest, ind)))
+				}
+			}
+		}
 	}
 	if len(s.Lhs) == 2 && len(s.Rhs) == 1 {
 		// _, ok := r.URL.Query()[key]: presence of a parameter in the query of the request being served (oracle)
@@ -1668,6 +1833,29 @@ func (c *tctx) assign(s *ast.AssignStmt, rest []ast.Stmt, ind string) string {
 	if len(s.Rhs) == 1 {
 		// tuple-valued call
 		v := c.expr(s.Rhs[0])
+		allIdent := true
+		for _, l := range s.Lhs {
+			if _, ok := l.(*ast.Ident); !ok {
+				allIdent = false
+			}
+		}
+		if !allIdent && tok == "=" {
+			// x.f, x.g = call(): the results are stored through the access paths, left to right
+			out := c.stmts(rest, ind)
+			for i := len(s.Lhs) - 1; i >= 0; i-- {
+				l := s.Lhs[i]
+				proj := "t_" + tupleProj(i, len(s.Lhs))
+				if id, ok := l.(*ast.Ident); ok {
+					if n := lhsName(id, nil); n != "" {
+						out = fmt.Sprintf("%slet s := { s with %s := %s };\n%s", ind, n, proj, out)
+					}
+					continue
+				}
+				root, upd, g := c.pathUpdateVal(l, val{e: proj})
+				out = guardWrap(g, ind, fmt.Sprintf("%slet s := { s with %s := %s };\n%s", ind, root, upd, out))
+			}
+			return guardWrap(v.g, ind, fmt.Sprintf("%slet t_ := %s;\n%s", ind, v.e, out))
+		}
 		var lets []string
 		lets = append(lets, fmt.Sprintf("%slet t_ := %s;", ind, v.e))
 		for i, l := range s.Lhs {
@@ -2280,7 +2468,7 @@ func (c *tctx) callTranslated(callee *fn, x *ast.CallExpr) val {
 		}
 		a := x.Args[ai]
 		ai++
-		if p.kind == "ignored" || p.name == "_" {
+		if p.kind == "ignored" || p.kind == "setter" || p.name == "_" {
 			continue
 		}
 		var v val
@@ -2509,6 +2697,8 @@ func (c *tctx) methodCall(fun *ast.SelectorExpr, x *ast.CallExpr) val {
 		}
 	case rs == "*net/http.Request" && name == "ParseForm":
 		return val{e: c.oracle("m_ParseForm", "Err", "(*http.Request).ParseForm"), g: g}
+	case rs == "*net/http.Request" && name == "FormValue":
+		return val{e: fmt.Sprintf("(%s %s)", c.oracle("formValue", "String → String", "r.FormValue(name) of the request being served"), es[0]), g: g}
 	case rs == "net/url.Values" && name == "Get":
 		// r.Form.Get(name): the request's form as an oracle
 		return val{e: fmt.Sprintf("(%s %s)", c.oracle("formGet", "String → String", "r.Form.Get(name) of the request being served"), es[0]), g: g}
